@@ -3194,14 +3194,17 @@ time_t query_idle (object_t * ob) {
   return (current_time - ob->interactive->last_time);
 }				/* query_idle() */
 
+static void clear_notify (interactive_t * ip);
+
 void notify_no_command () {
   string_or_func_t p;
   svalue_t *v;
+  interactive_t *ip;
 
-  if (!command_giver || !command_giver->interactive)
+  if (!command_giver || !(ip = command_giver->interactive))
     return;
-  p = command_giver->interactive->default_err_message;
-  if (command_giver->interactive->iflags & NOTIFY_FAIL_FUNC)
+  p = ip->default_err_message;
+  if (ip->iflags & NOTIFY_FAIL_FUNC)
     {
       object_t *giver = command_giver;
 
@@ -3210,25 +3213,42 @@ void notify_no_command () {
        * is unwound and the reference released, while nothing would ever take an entry off
        * the command giver stack again. */
       push_object (giver);
+      /* The function is LPC code: it can call notify_fail() again or destruct the user,
+       * and both release the message stored in the connection - the very function that
+       * is running. Take it off the connection first; the reference the connection held
+       * moves to a stack slot, which also releases it when the function raises an error. */
+      STACK_CHECK (1);
+      ip->default_err_message.s = 0;
+      ip->iflags &= ~NOTIFY_FAIL_FUNC;
+      push_refed_funp (p.f);
       v = call_function_pointer (p.f, 0);
       command_giver = giver;
+      pop_stack ();		/* the function pointer */
       pop_stack ();		/* 0 by now if the function destructed it */
-      free_funp (p.f);
       if (command_giver && command_giver->interactive)
         {
           if (v && v->type == T_STRING)
             tell_object (command_giver, v->u.string);
-          command_giver->interactive->iflags &= ~NOTIFY_FAIL_FUNC;
-          command_giver->interactive->default_err_message.s = 0;
+          /* as before, no message is pending after a failure has been reported:
+           * drop (do not leak) what the function may have set */
+          if (command_giver->interactive)
+            clear_notify (command_giver->interactive);
         }
     }
   else
     {
       if (p.s)
         {
+          /* same as above: a snooper's receive_snoop() runs inside tell_object() */
+          STACK_CHECK (1);
+          ip->default_err_message.s = 0;
+          (++sp)->type = T_STRING;
+          sp->subtype = STRING_SHARED;
+          sp->u.string = p.s;
           tell_object (command_giver, p.s);
-          free_string (p.s);
-          command_giver->interactive->default_err_message.s = 0;
+          pop_stack ();
+          if (command_giver->interactive)
+            clear_notify (command_giver->interactive);
         }
       else if (CONFIG_STR (__DEFAULT_FAIL_MESSAGE__))
         {
